@@ -46,6 +46,7 @@ type critRace struct {
 	Variant     string   `json:"variant"`
 	Trial       int      `json:"trial"`
 	Files       int      `json:"files,omitempty"`
+	Targets     int      `json:"distinct_targets_with_one_output,omitempty"`
 	Invocations int      `json:"invocations"`
 	Build       string   `json:"build_file"`
 	Label       string   `json:"label"`
@@ -62,6 +63,9 @@ type critRace struct {
 }
 
 type critProblem struct{ class, what string }
+
+// sharedQuickKiB: size of the file of the shared-file variant in the quick tier
+const sharedQuickKiB = 262144
 
 const critConfig = "[build]\npath = /usr/local/bin:/usr/bin:/bin\n[cache]\ndir = \n[display]\nupdatetitle = false\n"
 
@@ -114,12 +118,18 @@ func (cr *critRace) judge(res []invRes, wantFinal, gotFinal string, wantRuns int
 	if cr.Stream == "copied-filegroup" {
 		kind = "filegroup"
 	}
+	destroyed := "concurrent-invocation-destroys-" + kind + "-being-built"
+	if cr.Variant == "shared-file" {
+		// different targets, different locks, one output path: what they share is the directory entry of the
+		// destination and of whatever temporary file the copy goes through
+		destroyed = "filegroups-sharing-an-output-file-clobber-each-other"
+	}
 	for i, r := range res {
 		switch {
 		case r.TimedOut:
 			cr.problems = append(cr.problems, critProblem{"invocation-hung", fmt.Sprintf("%s/%s: invocation %d of %d did not finish in 120 s", cr.Stream, cr.Variant, i, len(res))})
 		case r.Exit != 0 && len(cr.Interfered) > 0:
-			cr.problems = append(cr.problems, critProblem{"concurrent-invocation-destroys-" + kind + "-being-built",
+			cr.problems = append(cr.problems, critProblem{destroyed,
 				fmt.Sprintf("%s/%s: invocation %d of %d of %s exits %d, its work was removed under it by another invocation (%s): %s",
 					cr.Stream, cr.Variant, i, len(res), cr.Label, r.Exit, strings.Join(cr.Interfered, ", "), tailOf(r.Output, 300))})
 		case r.Exit != 0:
@@ -260,6 +270,14 @@ func fgSources(variant string, n int) (map[string]string, string) {
 	case "single-file":
 		files["p/data/big"] = strings.Repeat("0123456789abcdef", n*64) // n KiB
 		return files, "filegroup(\n    name = \"fg\",\n    srcs = [\"data/big\"],\n    binary = True,\n)\n"
+	case "shared-file":
+		// sharedTargets DIFFERENT filegroups re-export the same large file: one output path, as many target locks
+		files["p/data/big"] = strings.Repeat("0123456789abcdef", n*64) // n KiB
+		build := ""
+		for k := 0; k < sharedTargets; k++ {
+			build += fmt.Sprintf("filegroup(\n    name = \"fg%d\",\n    srcs = [\"data/big\"],\n    binary = True,\n)\n\n", k)
+		}
+		return files, build
 	}
 	panic(variant)
 }
@@ -284,6 +302,9 @@ func treeDigest(root string) string {
 	return fmt.Sprintf("%d files, digest %s", len(lines), fmt.Sprintf("%x", sha1.Sum([]byte(strings.Join(lines, "\n")))))
 }
 
+// sharedTargets: how many filegroups of the shared-file variant write the one output file
+const sharedTargets = 4
+
 type fgRepo struct {
 	repo    *e2e.Repo
 	variant string
@@ -302,6 +323,14 @@ func newFgRepo(base, variant string, n int) *fgRepo {
 	return &fgRepo{repo: repo, variant: variant, files: n, build: build, want: treeDigest(filepath.Join(repo.Dir, "p", "data"))}
 }
 
+// labelOf: what invocation k builds - the one filegroup, or (shared-file) a filegroup of its own
+func (f *fgRepo) labelOf(k int) string {
+	if f.variant == "shared-file" {
+		return fmt.Sprintf("//p:fg%d", k%sharedTargets)
+	}
+	return "//p:fg"
+}
+
 // progress: how far (percent) the first invocation has got with populating the filegroup's output
 func (f *fgRepo) progress() int {
 	es, err := os.ReadDir(filepath.Join(f.repo.Dir, "plz-out", "bin", "p", "data"))
@@ -313,6 +342,13 @@ func (f *fgRepo) progress() int {
 		return len(es) * 100 / 40
 	case "many-files":
 		return len(es) * 100 / max(1, f.files)
+	case "shared-file":
+		// the first invocation has opened its temporary file next to the destination (whatever it is called)
+		for _, e := range es {
+			if strings.HasPrefix(e.Name(), "big") && e.Name() != "big" {
+				return 100
+			}
+		}
 	}
 	return 0
 }
@@ -324,6 +360,13 @@ func (f *fgRepo) trial(c *lib.Ctx, trial, nInv int, delays []time.Duration, at [
 	f.repo.RemovePlzOut()
 	cr := &critRace{Stream: "copied-filegroup", Variant: f.variant, Trial: trial, Files: f.files, Invocations: nInv, Build: f.build, Label: "//p:fg",
 		SingleMs: int(f.single.Milliseconds()), StartAtPct: at}
+	if f.variant == "shared-file" {
+		cr.Label, cr.Targets = "", min(nInv, sharedTargets)
+		for k := 0; k < nInv; k++ {
+			cr.Label += f.labelOf(k) + " "
+		}
+		cr.Label = "one each of " + strings.TrimSpace(cr.Label)
+	}
 	res := make([]invRes, nInv)
 	started := make([]int64, nInv)
 	var wg sync.WaitGroup
@@ -349,8 +392,13 @@ func (f *fgRepo) trial(c *lib.Ctx, trial, nInv int, delays []time.Duration, at [
 			niceness := 0
 			if k == 0 && at != nil {
 				niceness = 19
+				if f.variant == "shared-file" {
+					// one copy (and one hash) of a large file is little CPU time: at 19 on a very busy machine the first
+					// invocation takes minutes over it; 10 keeps its copy several times longer than the others' start-up
+					niceness = 10
+				}
 			}
-			res[k] = runPlzNice(f.repo, niceness, 2, false, []string{"//p:fg"}, 120*time.Second)
+			res[k] = runPlzNice(f.repo, niceness, 2, false, []string{f.labelOf(k)}, 120*time.Second)
 			if k == 0 {
 				close(firstDone)
 			}
@@ -372,7 +420,11 @@ func (cr *critRace) report(c *lib.Ctx) {
 		interfered = interfered || p.class != "invocation-hung"
 	}
 	key := fmt.Sprint(cr.Stream, cr.Variant, cr.Invocations, cr.Files, cr.DelaysMs)
-	c.Case(lib.App("CaseCrit", lib.Bool(cr.Stream == "copied-filegroup"), lib.Nat(cr.Invocations), lib.Bool(interfered)), cr, key, cr.Invocations >= 2)
+	if cr.Variant == "shared-file" {
+		c.Case(lib.App("CaseShared", lib.Nat(cr.Targets), lib.Nat(cr.Invocations), lib.Bool(interfered)), cr, key, cr.Invocations >= 2 && cr.Targets >= 2)
+	} else {
+		c.Case(lib.App("CaseCrit", lib.Bool(cr.Stream == "copied-filegroup"), lib.Nat(cr.Invocations), lib.Bool(interfered)), cr, key, cr.Invocations >= 2)
+	}
 	c.Oracle()
 	outcome := "fine"
 	for _, p := range cr.problems {
@@ -419,8 +471,12 @@ func runFilegroupStreams(c *lib.Ctx, base string) []*critRace {
 		n       int
 		trials  int
 	}
-	vs := []v{{"directory", c.Scale(12000, 20000), c.Scale(2, 10)}, {"many-files", c.Scale(1500, 4000), c.Scale(1, 4)}, {"single-file", c.Scale(32768, 131072), c.Scale(1, 4)}}
+	vs := []v{{"directory", c.Scale(12000, 20000), c.Scale(2, 10)}, {"many-files", c.Scale(1500, 4000), c.Scale(1, 4)}, {"single-file", c.Scale(32768, 131072), c.Scale(1, 4)},
+		{"shared-file", c.Scale(sharedQuickKiB, 524288), c.Scale(2, 8)}}
 	for _, x := range vs {
+		if os.Getenv("VERIF_C31_STREAMS") == "shared" && x.variant != "shared-file" {
+			continue
+		}
 		f := newFgRepo(base, x.variant, x.n)
 		// how long one process needs from start to finish (measured when a trial staggered in TIME needs it)
 		calibrate := func() bool {
@@ -439,6 +495,22 @@ func runFilegroupStreams(c *lib.Ctx, base string) []*critRace {
 			return true
 		}
 		for t := 0; t < x.trials; t++ {
+			if x.variant == "shared-file" {
+				// DIFFERENT filegroups with the same output file, one invocation each: the later ones are started together when
+				// the first (at niceness 19) has opened its temporary file - on a busy machine their copies overlap the first
+				// one's, on an idle one each other's (they take as long as each other); every fourth trial: all at once
+				n := 3 + (t+1)%2
+				if t%4 == 3 {
+					out = append(out, f.trial(c, t, n, make([]time.Duration, n), nil))
+				} else {
+					at := make([]int, n)
+					for k := 1; k < n; k++ {
+						at[k] = 1
+					}
+					out = append(out, f.trial(c, t, n, nil, at))
+				}
+				continue
+			}
 			if x.variant != "single-file" && (t < 2 || t%2 == 0) {
 				// the later invocations are started when the first (at a lower priority) has populated 3-6 % / 8-20 % of the output
 				out = append(out, f.trial(c, t, 3, nil, []int{0, 3 + c.Rng.Intn(4), 8 + c.Rng.Intn(13)}))
@@ -469,6 +541,17 @@ func replayCrit(c *lib.Ctx, base string, in *critRace) {
 			runSlowCollect(base, in.Variant, k, max(2, in.Invocations)).report(c)
 		case "copied-filegroup":
 			f := newFgRepo(base, in.Variant, max(1, in.Files))
+			if in.Variant == "shared-file" {
+				n := max(2, in.Invocations)
+				at := in.StartAtPct
+				if len(at) != n {
+					at = nil
+				}
+				f.trial(c, k, n, make([]time.Duration, n), at).report(c)
+				os.RemoveAll(f.repo.Dir)
+				os.Remove(f.repo.LogPath)
+				continue
+			}
 			t0 := time.Now()
 			runPlz(f.repo, 2, false, []string{"//p:fg"}, 120*time.Second)
 			f.single = time.Since(t0)
